@@ -20,6 +20,9 @@ E = [
     (("rgba(0,0,0,0.4)", (250, 240, 20)), True),
     (["#777", "#fff"], True),
     (("#8a8a8a", "#ffffff", True), True),
+    (("#777", "#fff", True), True),          # same spelling as entry 0, large flag only
+    (("#8a8a8a", "#ffffff"), True),          # same spelling as the entry above it, normal size
+    (("#777", "#fff", False), True),         # 3-element form of entry 0
 ]
 SETTINGS = [(m, vr) for m in (0, 1, 2) for vr in (False, True)]
 
@@ -151,7 +154,7 @@ def run(ctx):
         lists += list(itertools.product(base, repeat=k))
     lists.sort(key=len, reverse=True)
     n = tr = 0
-    for cnt, t, vs in ctx.pmap(chunk, [(ix, table) for ix in lists], chunksize=2):
+    for cnt, t, vs in ctx.pmap_forked(chunk, [(ix, table) for ix in lists], chunksize=2):
         n += cnt
         tr += t
         ctx.add_violations(vs)
